@@ -8,3 +8,5 @@ def check(ctx: Ctx) -> None:
     CT.r_listen_loop(ctx, "R18.2")
     CT.r_containment(ctx, "R18.3")
     CT.r_buffer(ctx, "R18.4")
+    # "a command that waits is answered when the wait is over": the session awaits only coroutine functions
+    CT.r_async_declared(ctx, "R18.5")
